@@ -402,6 +402,11 @@ def rule_whole_map_read(ctx, R="C13/whole-map-read"):
     rd = [(bi, t) for bi, t in b.calls(lambda c: (c.short or "").split("::")[-1] in ("from_read", "from_buf_read", "from_file") and "MemoryMaps" in (c.inst or ""))]
     ctx.floor(R, "MemoryMaps parse in enumerate_mappings", len(rd), 1)
     for bi, t in rd:
+        cvx = CalleeView(t["callee"])
+        ctx.check((cvx.short or "").startswith("procfs_core::"), R, ("whole-file", "parser-is-procfs"), b.where(bi),
+                  "the parse is procfs_core's own FromRead/FromBufRead function",
+                  "the memory map is parsed through %s, a function that only carries the parser's name (a local trait or wrapper may cut or filter what "
+                  "the real parser is given)" % cvx.short)
         a = strip(o.call_args(bi)[0])
         names = []
         cur = a
